@@ -115,6 +115,11 @@ def tlsWorld (W : Net.World ω) (E : Engine σ) (buf : Bytes) : Gen.TlsWorld (TW
   sslGetError _ w := (.ok (codeOf w.ans.toErr), w)
   sslIsInitFinished w := (.ok (if E.initFinished w.s.e then 1 else 0), w)
   sslPending w := (.ok (if E.pending w.s.e then 1 else 0), w)
+  sslShutdown w :=
+    match interp W w.s (E.sslShutdown w.s.e) with
+    | (.ok (ans, _), s1) => (.ok (shutRes ans), { w with s := s1 })
+    | (.exn e, s1) => (.thrown (toThrown e), { w with s := s1 })
+    | (.abort _, s1) => (.halted, { w with s := s1 })
   sslError _ w := (.ok (-1), w)
 
 /-! the fields of `tlsWorld`, one equation each (simp lemmas: the proofs never unfold `tlsWorld`) -/
@@ -199,6 +204,12 @@ def tlsWorld (W : Net.World ω) (E : Engine σ) (buf : Bytes) : Gen.TlsWorld (TW
     (tlsWorld W E buf).sslIsInitFinished w = (.ok (if E.initFinished w.s.e then 1 else 0), w) := rfl
 @[simp] theorem tw_sslPending (W : Net.World ω) (E : Engine σ) (buf : Bytes) (w : TWSt σ ω) :
     (tlsWorld W E buf).sslPending w = (.ok (if E.pending w.s.e then 1 else 0), w) := rfl
+@[simp] theorem tw_sslShutdown (W : Net.World ω) (E : Engine σ) (buf : Bytes) (w : TWSt σ ω) :
+    (tlsWorld W E buf).sslShutdown w =
+    match interp W w.s (E.sslShutdown w.s.e) with
+    | (.ok (ans, _), s1) => (.ok (shutRes ans), { w with s := s1 })
+    | (.exn e, s1) => (.thrown (toThrown e), { w with s := s1 })
+    | (.abort _, s1) => (.halted, { w with s := s1 }) := rfl
 @[simp] theorem tw_sslError (W : Net.World ω) (E : Engine σ) (buf : Bytes) (c : Int) (w : TWSt σ ω) :
     (tlsWorld W E buf).sslError c w = (.ok (-1), w) := rfl
 
